@@ -394,7 +394,7 @@ pub fn run(opts: &Opts) -> i32 {
         |sb, i| check_case(sb, opts.seed, i, &all[i], nsched, None),
     );
     harness::print_run_digest(&results.iter().map(|r| format!("{}{}", r.digest, r.violations.len())).collect::<Vec<_>>());
-    let mut violations = Vec::new();
+    let mut violations: Vec<Violation> = Vec::new();
     let mut multi = 0u64;
     for r in results {
         ev.evaluations += r.procs;
@@ -409,6 +409,14 @@ pub fn run(opts: &Opts) -> i32 {
             ev.probe(k, v);
         }
         violations.extend(r.violations);
+    }
+    // minimise: drop `main` print statements (and with them whole call trees) while the same
+    // class of violation persists under the same schedule
+    if !opts.dry {
+        let sb = Sandbox::new("c14shrink").expect("sandbox");
+        for v in violations.iter_mut().take(5) {
+            shrink_violation(&sb, v);
+        }
     }
     ev.extra.insert("projects".into(), json!(all.len()));
     ev.extra.insert("projects_multi_package".into(), json!(multi));
@@ -465,4 +473,39 @@ pub fn check_case_debug(sb: &Sandbox, case: &Case) -> Vec<String> {
     let mut out: Vec<String> = r.violations.iter().map(|v| v.what.clone()).collect();
     out.push(format!("probes: {:?}", r.probes));
     out
+}
+
+
+fn shrink_violation(sb: &Sandbox, v: &mut Violation) {
+    let r = v.replay.clone();
+    let mut files = files_from_json(&r["files"]);
+    let class = r["class"].as_str().unwrap_or("").to_string();
+    if class == "order-dependent-artifacts" {
+        return;
+    }
+    let sched = r["schedule_seed"].as_u64().unwrap_or(0);
+    let idx = r["index"].as_u64().unwrap_or(0) as usize;
+    let still = |fs: &Files| -> bool {
+        let case = Case { name: "shrink".into(), files: fs.clone(), predicted: None };
+        check_case(sb, 0, idx, &case, 1, Some(sched)).violations.iter().any(|x| x.class == class)
+    };
+    let Some(main) = files.get("main.gom").cloned() else { return };
+    let mut lines: Vec<String> = String::from_utf8_lossy(&main).lines().map(|l| l.to_string()).collect();
+    let mut i = 0;
+    while i < lines.len() {
+        if lines[i].starts_with("    string_println(") {
+            let mut t = lines.clone();
+            t.remove(i);
+            let mut f2 = files.clone();
+            f2.insert("main.gom".into(), (t.join("\n") + "\n").into_bytes());
+            if still(&f2) {
+                lines = t;
+                files = f2;
+                continue;
+            }
+        }
+        i += 1;
+    }
+    v.replay["files"] = files_json(&files);
+    v.replay["predicted"] = Value::Null;
 }
